@@ -30,6 +30,14 @@ example : opNew poscDb .div qM qM 5 5 = .ok (⟨[], 0, true⟩, 1) := by decide 
 example : opNew poscDb .floordiv qM qCm (R 75 10) 200 = .ok (⟨[], 0, true⟩, 3) := by decide +kernel
 example : opNew poscDb .div qM qS 1 0 = .error .other := by decide +kernel
 example : pow poscDb qM 2 3 = .ok (⟨[⟨S "length", S "m", 3⟩], 0, true⟩, 8) := by decide +kernel
+-- n − 1 successive products for every n: a**5, a**6 (exponent n, value v^n); n ≤ 1 returns the operand itself
+example : pow poscDb qM 2 5 = .ok (⟨[⟨S "length", S "m", 5⟩], 0, true⟩, 32) := by decide +kernel
+example : pow poscDb qS (-1) 6 = .ok (⟨[⟨S "time", S "s", 6⟩], 0, true⟩, 1) := by decide +kernel
+example : pow poscDb qM 2 0 = .ok (qM, 2) ∧ pow poscDb qM 2 (-3) = .ok (qM, 2) := ⟨by decide +kernel, by decide +kernel⟩
+-- the general theorem instantiated: dims of a**11 are 11·dims a, base magnitude the 11th power
+example {q' : Quantity} {v' : Rat} (h : pow poscDb qM2 3 11 = .ok (q', v')) :
+    (∀ qt, dim poscDb qt q'.entries = 11 * dim poscDb qt qM2.entries) ∧ baseMag poscDb q' v' = baseMag poscDb qM2 3 ^ 11 :=
+  pow_dim_mag posc_allWF (by decide) (known_of_b (by decide +kernel)) (Or.inl (by decide)) h
 example : opNew poscDb .mul ⟨[⟨S "temperature", S "degC", 1⟩], 0, false⟩
     ⟨[⟨S "length", S "m", 1⟩, ⟨S "temperature", S "K", 1⟩], 0, true⟩ 2 3
     = .ok (⟨[⟨S "temperature", S "degC", 2⟩, ⟨S "length", S "m", 1⟩], 0, true⟩, 6) := by decide +kernel
